@@ -57,6 +57,11 @@ func ZeroValueOf(typeExpr ast.Expr, typ types.Type) ast.Expr {
 			zv = &ast.BasicLit{Kind: token.STRING, Value: `""`}
 		case info&types.IsBoolean != 0:
 			zv = &ast.Ident{Name: "false"}
+		case info&types.IsComplex != 0:
+			zv = &ast.BasicLit{Kind: token.INT, Value: "0"}
+		default:
+			// E.g. unsafe.Pointer.
+			return nil
 		}
 		if isDefaultLiteralType(typ) {
 			return zv
